@@ -24,6 +24,7 @@ EXPLANATION = (
     "float precision."
     " Rules added after the sixth blind round: (R19.5) RecordDescriptor defines neither __len__ nor __bool__ (the writer tests the truth of self.desc); (R19.6 = R17.4 of C17, SplitWriter.write) the full part is finalised before the next one is opened."
     " Rules added after the seventh blind round: (R19.7 = R5.9 of C05) generated code never truth-tests a generic field value; the reader's schema refusal (R19.1) is decided by expanding the tested expression and self.schema to the same value and by dominance over the schema's first use."
+    " (R19.8) every creation of fastavro.write.Writer on the writer's file is unreachable while a writer exists unless the file was truncated on the way - one container header per file whatever the order of flush() and write() (defect F19b, found by a sub-agent's differential test and fixed in 892b03f)."
 )
 RULE_SUMMARY = "instances: refusal sites, type-table rows, embedding sites, value-flow into writer.write"
 
@@ -33,6 +34,38 @@ FLOW_PY = {  # python form of _pack() per flow type (derived from the class hier
     "boolean": "bool", "datetime": "datetime", "filesize": "int", "uint16": "int", "uint32": "int", "float": "float", "string": "str",
     "unix_file_mode": "int", "varint": "int", "wstring": "str", "uri": "str", "bytes": "bytes",
 }
+
+
+def check_one_container_header(ctx, rule: str) -> None:
+    """fastavro.write.Writer(fp, schema) writes the container header when it is created. AvroWriter creates one in write() (first record)
+    and one in flush() (placeholder schema, so that an empty output is a valid container). A second creation on a file that already has
+    a header puts a second header behind the first: readers take the first schema for everything that follows."""
+    from .. import logic as _lg
+
+    prog = ctx.prog
+    av = prog.module("flow.record.adapter.avro")
+    wcls = ctx.anchor_cls("flow.record.adapter.avro.AvroWriter")
+    ctx.rule(rule, "every creation of fastavro.write.Writer on self.fp is unreachable while self.writer is set, unless the file was started over "
+                   "(self.fp.truncate()) on the way: one container header per file, whatever the order of flush() and write()")
+    n = 0
+    for mname, m in sorted(prog.methods_of(wcls).items()):
+        sites = [c for c in calls_in(m) if norm(c.func).endswith("write.Writer") or getattr(prog.resolve_expr(av, c.func), "name", "").endswith("write.Writer")]
+        if not sites:
+            continue
+        cfg = CFG(m)
+        val = lambda a: True if a == "self.writer" else None  # noqa: E731
+        rewinds = {cfg.node_of(c).id for c in calls_in(m) if norm(c.func) in ("self.fp.truncate",) and cfg.node_of(c) is not None}
+        stores = {nd.id for nd in cfg.stmt_nodes() if isinstance(nd.ast, ast.Assign) and any(norm(t) == "self.writer" for t in nd.ast.targets)
+                  and not (isinstance(nd.ast.value, ast.Call) and nd.ast.value in sites)}
+        reach = _lg.reachable_assuming(cfg, cfg.entry, val, avoid=lambda nd: nd.id in rewinds or nd.id in stores)
+        for c in sites:
+            n += 1
+            nd = cfg.node_of(c)
+            ctx.check(nd is not None and nd.id not in reach, rule, f"AvroWriter.{mname}:second-header", f"`{norm(c)[:60]}` in {mname}() can run while a writer already exists on the same "
+                      "file (flush() before the first record creates one with a placeholder schema): a second container header is written behind the first and every record "
+                      "reads back as an empty record of the placeholder schema - no error on a stream target", c, "created only when there is no writer yet, or after the file was started over",
+                      key=f"{rule}:AvroWriter.{mname}:second-container-header")
+    ctx.floor(rule, "creations of fastavro.write.Writer in AvroWriter", n, 2)
 
 
 def run(ctx):
@@ -341,6 +374,9 @@ def run(ctx):
     tests5 = [t for t in ast.walk(aw5) if isinstance(t, (ast.If, ast.IfExp)) and norm(t.test) in ("not self.desc", "self.desc")]
     ctx.check(not truthy or not tests5, "R19.5", "RecordDescriptor:truthiness", f"RecordDescriptor defines {truthy} while AvroWriter.write tests the truth of self.desc", rdc5,
               "descriptors are always truthy (no __len__/__bool__), or the writer tests `is None`", key="R19.5:RecordDescriptor:falsy-descriptor")
+
+    # ------------------------------------------------------------------ R19.8 one container header per file
+    check_one_container_header(ctx, "R19.8")
 
     # ------------------------------------------------------------------ R19.7 (shared rule) the reader builds records by keyword: generated constructor code keeps falsy values
     from .c05 import check_generated_value_tests as _cgv19
